@@ -96,9 +96,10 @@ class HC:
             world.dispatch_enabled = False
             extra = HC(envx, f'late{pos}')
             envx.keep.append(extra)
-            world.add_component(9, extra)
+            # (its own entity: two such faults must not replace each other)
+            world.add_component(100 + pos, extra)
             envx.groups.append(len(envx.expected))
-            envx.expected.append((extra.label, 'on_add', 9, True))
+            envx.expected.append((extra.label, 'on_add', 100 + pos, True))
 
     def on_add(self, entity, world):
         self._got('on_add', entity, world)
